@@ -8,6 +8,11 @@ HTTP_NOTE = ("trusted base: the scripted origin and the testing/synctest virtual
              "renders abstract classes to header text and recovers the meaning of reply headers by table lookup; TLC evaluates the "
              "monitors; the model checks are bounded by the constants recorded in the evidence")
 
+KV_NOTE = ("trusted base: the harness identifies returned values by SHA-256 (a strict prefix of a known value counts as torn), "
+           "finds a key's file by directory diff, cuts writes with RLIMIT_FSIZE and kills the writer child at the fscache step hooks "
+           "(build tag verif); the kernel's file semantics (atomic rename, unlink) are as modelled in FsAtomic.tla; TLC judges every "
+           "recorded operation against the reference map KVStore.tla; nothing is claimed about cryptographic strength")
+
 CLAIMS = {
  "C01": ("model_checking", "MC_decide (families F and V) exhaustively explores the store-tick-probe decision table of the implementation-shaped model HttpCache.tla against the NoStaleServe monitor; every exported behaviour (quick: stratified sample; thorough: all) and seeded random histories are replayed into the real transport and the recorded traces are validated by TLC (Trace.tla), which evaluates the monitor on what the code did", "7 C01", "TLA+ model checking (TLC) of HttpCache.tla + replay of TLC behaviours into the code + TLC trace validation"),
  "C02": ("model_checking", "same engine as C01 with the ReuseNeedsValidation / QualifiedFieldsStripped / ConditionalRequestShape / RequestUntouched monitors; family V enumerates stored directives x request directives x validators x validation answers", "7 C02", "TLA+ model checking (TLC) + behaviour replay + TLC trace validation"),
@@ -37,13 +42,14 @@ def main():
         pid = p["id"]
         if pid in CLAIMS:
             cat, text, ref, tech = CLAIMS[pid]
+            note = KV_NOTE if pid in ("C14", "C15", "C17") else HTTP_NOTE
             checks.append({"property_id": pid, "quick_cmd": "./check %s --tier quick" % pid,
                            "thorough_cmd": "./check %s --tier thorough" % pid,
                            "evidence_file": "/verif/evidence/%s.json" % pid,
                            "replay_cmd_template": "./check %s --replay {path}" % pid,
                            "engine": "tla-conformance",
                            "level_claimed": {"category": cat, "text": text, "design_ref": "DESIGN.md section " + ref},
-                           "level_note": HTTP_NOTE, "technique": tech})
+                           "level_note": note, "technique": tech})
         else:
             na.append({"property_id": pid, "reason": "check not built yet (work in progress; see DESIGN.md section 10)"})
     m = {"version": 1, "setup_cmd": "./check setup",
